@@ -90,3 +90,24 @@ package tls
 //@   ensures offset(clientMAC) == 0 && offset(serverMAC) == macLen && offset(clientKey) == 2*macLen && offset(serverKey) == 2*macLen + keyLen && offset(clientIV) == 2*macLen + 2*keyLen && offset(serverIV) == 2*macLen + 2*keyLen + ivLen
 //@   modifies all
 //@   terminates
+
+// RFC 5705 4 (keying material exporter, TLS <= 1.2):
+//   PRF(master_secret, label, client_random + server_random [+ context_value_length + context_value])[length]
+// "context_value_length is encoded as an unsigned, 16-bit quantity (uint16) representing the
+// length of the context value"; a context that is PROVIDED but empty still contributes its
+// two zero length octets ("the exporter with a zero-length context is different from the one
+// without context") - in the Go API "provided" is context != nil. Partial claim on the closure
+// ekmFromMasterSecret returns: the seed handed to the PRF has exactly that layout, the output
+// buffer has the requested length, the secret is the master secret, the label is the label.
+//@ func ekmFromMasterSecret$1
+//@   requires *version == VersionTLS12 ==> *suite != nil
+//@   maypanic
+//@   modifies all
+//@   claims at
+//@   at call funcvalue assert [out] len(arg0) == length && same(arg1, masterSecret) && eq(arg2, label)
+//@   at call funcvalue assert [noctx] context == nil ==> len(arg3) == len(clientRandom) + len(serverRandom) && forall(k, 0, len(clientRandom), arg3[k] == clientRandom[k])
+//@   at call funcvalue assert [ctxlen] context != nil ==> len(arg3) == len(clientRandom) + len(serverRandom) + 2 + len(context) && len(context) < 65536
+//@   at call funcvalue assert [ctxhead] context != nil ==> forall(k, 0, len(clientRandom), arg3[k] == clientRandom[k])
+//@   at call funcvalue assert [ctxprefix] context != nil ==> arg3[len(clientRandom)+len(serverRandom)] == byte(len(context) >> 8)
+// (not stated - undecided within the time rule: the server_random part, the low length octet
+// and the context bytes of the seed; see /verif/notes/prf_exporter.md)
